@@ -156,7 +156,11 @@ fn build_add(lhs: &AstNode, rhs: &AstNode) -> Result<Evaluator> {
       }
       Value::YearsAndMonthsDuration(lh) => {
         if let Value::YearsAndMonthsDuration(rh) = rhv {
-          Value::YearsAndMonthsDuration(FeelYearsAndMonthsDuration::new_m(lh.as_months() + rh.as_months()))
+          // the sum of months that does not fit in the range of the duration is not a duration
+          match lh.as_months().checked_add(rh.as_months()) {
+            Some(months) => Value::YearsAndMonthsDuration(FeelYearsAndMonthsDuration::new_m(months)),
+            None => value_null!("[addition] years and months duration out of range"),
+          }
         } else {
           value_null!("addition err 4")
         }
@@ -1310,7 +1314,10 @@ fn build_neg(lhs: &AstNode) -> Result<Evaluator> {
     match lhv {
       Value::Number(lh) => Value::Number(-lh),
       Value::DaysAndTimeDuration(lh) => Value::DaysAndTimeDuration(-lh),
-      Value::YearsAndMonthsDuration(lh) => Value::YearsAndMonthsDuration(FeelYearsAndMonthsDuration::new_m(-lh.as_months())),
+      Value::YearsAndMonthsDuration(lh) => match lh.as_months().checked_neg() {
+        Some(months) => Value::YearsAndMonthsDuration(FeelYearsAndMonthsDuration::new_m(months)),
+        None => value_null!("[arithmetic negation] years and months duration out of range"),
+      },
       _ => value_null!("arithmetic negation err 1"),
     }
   }))
@@ -1690,7 +1697,11 @@ fn build_sub(lhs: &AstNode, rhs: &AstNode) -> Result<Evaluator> {
       }
       Value::YearsAndMonthsDuration(ref lh) => {
         if let Value::YearsAndMonthsDuration(ref rh) = rhv {
-          return Value::YearsAndMonthsDuration(FeelYearsAndMonthsDuration::new_m(lh.as_months() - rh.as_months()));
+          // the difference of months that does not fit in the range of the duration is not a duration
+          return match lh.as_months().checked_sub(rh.as_months()) {
+            Some(months) => Value::YearsAndMonthsDuration(FeelYearsAndMonthsDuration::new_m(months)),
+            None => value_null!("[subtraction] years and months duration out of range"),
+          };
         }
       }
       _ => {}
